@@ -257,6 +257,22 @@ PROPS = {
         "bounds": {"quick": "one quote; timestamp and clock fully symbolic (64-bit seconds); 9 single-field alterations incl. key and claimed identity; proofs of 1..2 quotes with each quote genuine / forged / signed by another node; historical_verify with symbolic timestamps in both argument orders; Kani: bytes_for_signing on two fully symbolic field sets differing in one field (quick: timestamp, rewards address, presence of network_size; thorough: every signed field)"},
         "outside": ["ed25519/RSA and protobuf key decoding (ideal scheme)", "sub-second timestamp differences (the code signs whole seconds)", "injectivity of msgpack itself (the K harnesses replace rmp_serde::to_vec by a fixed-width encoder driven by the real Serialize impl)", "timestamps >= 2^40 s in the K harnesses"],
     },
+    "C14": {
+        "parts": [
+            {"engine": "D", "crate": "d_client", "harnesses": [
+                {"name": "c14_round_trip", "covers": ["too_small", "zero_levels", "one_level", "two_levels", "fetched"],
+                 "quick": {"max_paths": 100000, "timeout": 600}},
+            ]},
+        ],
+        "assumptions": COMMON_D_ASSUMPTIONS[:1] + [
+            "engine D on transplanted autonomi/src/self_encryption.rs (whole file: encrypt, pack_data_map, wrap_data_map, DataMapLevel) and the items data_get_public, chunk_get, fetch_from_data_map, fetch_from_data_map_chunk, process_tasks_with_max_concurrency, GetError of autonomi/src/client; real: ant-protocol Chunk (its Serialize impl and content address), record header/codec, rmp-serde, bytes, futures::FuturesUnordered, SHA-3 content addresses",
+            "the external self_encryption crate is an ideal model (shim::self_encryption): data of >= MIN_ENCRYPTABLE_BYTES bytes is cut into max(3, ceil(len/512)) pieces, the encrypted chunk of a piece is an invertible image of the same length, the data map lists index / chunk hash / piece hash / piece length, decrypt_full_set accepts exactly the chunks the map names; compression, AES and the crate's own size classes are not executed",
+            "what the repository's code reads as *MAX_CHUNK_SIZE is a symbolic 64-bit value assumed >= the model's piece size (in the real crate both are one constant); one checked substitution turns the buffer capacity hint BytesMut::with_capacity(*MAX_CHUNK_SIZE) into a native 0",
+            "rayon's into_par_iter is sequential; tracing macros are no-ops; the client's network handle is an in-memory record source holding exactly the produced chunks, whose i-th reply becomes ready after a harness-chosen number of polls (completion order of concurrent fetches); CHUNK_DOWNLOAD_BATCH_SIZE in {1, 2, 64}",
+        ],
+        "bounds": {"quick": "input lengths 0,1,2,3,4, 3*512-1, 3*512, 3*512+1, 4*512, 10*512, 12*512+5, 60*512+7 (0, 1 and 2 additional data-map levels are reached; which one is decided by the solver from the symbolic MAX_CHUNK_SIZE against the concrete serialised sizes); all 6 completion orders of a 3-chunk read, 4 delay patterns otherwise; 3 batch sizes"},
+        "outside": ["the self_encryption crate itself (compression, AES, its size classes at multiples of MAX_CHUNK_SIZE, MIN_ENCRYPTABLE_BYTES): ideal model", "contents other than one pseudo-random byte string per length", "more than two additional data-map levels", "private data (data_get with a DataMapChunk held by the user), archives and file-system walks", "upload, payment and retry behaviour of data_put"],
+    },
     "C15": {
         "parts": [
             {"engine": "D", "crate": "d_node", "harnesses": [
@@ -270,7 +286,7 @@ PROPS = {
             "most reply shapes are discrete and explored by choice forks; the solver decides the counter order of split versions",
         ],
         "bounds": {"quick": "chunk reads: 5 reply shapes (requested chunk, other chunk under the requested key, other kind, garbage, not found); vault reads: single reply or split into two versions, each owner in {requested, foreign} x signature in {valid, forged}, counters symbolic"},
-        "outside": ["fetch_from_data_map over self_encryption (C14, not applicable)", "more than two split versions (std HashMap iteration order of the real SplitRecord map would make re-execution non-deterministic)", "decryption of the vault content"],
+        "outside": ["fetch_from_data_map over self_encryption (C14)", "more than two split versions (std HashMap iteration order of the real SplitRecord map would make re-execution non-deterministic)", "decryption of the vault content"],
     },
     "C16": {
         "parts": [
